@@ -71,3 +71,123 @@ pub fn prior_ops(t: &mut Tape, cx: &mut Cx, allow_refusal: bool) {
     }
     cx.stage(STAGE_SETUP);
 }
+
+// ---------------------------------------------------------------- caller contexts
+// The codec's results must not depend on what the *calling thread* is doing. Two contexts a library user really has:
+// a destructor that runs while the thread unwinds from a panic (tunnel teardown sending StopCCN from Drop), and a
+// thread-local destructor that runs at thread exit, possibly after thread-locals the library created are gone.
+
+struct HarnessUnwind;
+
+/// Run `f` from a destructor that executes while the calling thread is unwinding (`std::thread::panicking()` is true).
+/// A panic raised by `f` is caught inside the destructor (it must not escape it), exactly as `guard` does elsewhere.
+pub fn while_unwinding<R>(f: impl FnOnce() -> R) -> Caught<R> {
+    struct G<F: FnOnce() -> R, R> {
+        f: Option<F>,
+        out: *mut Option<Caught<R>>,
+    }
+    impl<F: FnOnce() -> R, R> Drop for G<F, R> {
+        fn drop(&mut self) {
+            if let Some(f) = self.f.take() {
+                let r = guard(f);
+                unsafe { *self.out = Some(r) }
+            }
+        }
+    }
+    install_silent_hook();
+    let mut out: Option<Caught<R>> = None;
+    let p = &mut out as *mut Option<Caught<R>>;
+    let _ = std::panic::catch_unwind(std::panic::AssertUnwindSafe(|| {
+        let _g = G { f: Some(f), out: p };
+        // no hook, no message: a plain unwind raised by the harness itself
+        std::panic::resume_unwind(Box::new(HarnessUnwind));
+    }));
+    out.expect("the destructor ran")
+}
+
+struct AtExit(std::cell::RefCell<Option<Box<dyn FnOnce()>>>);
+impl Drop for AtExit {
+    fn drop(&mut self) {
+        let f = self.0.borrow_mut().take();
+        if let Some(f) = f {
+            f()
+        }
+    }
+}
+thread_local! {
+    static EXIT_EARLY: AtExit = AtExit(std::cell::RefCell::new(None));
+    static EXIT_LATE: AtExit = AtExit(std::cell::RefCell::new(None));
+}
+
+/// Run `f` three times on a fresh thread: in its body, and from two thread-local destructors at thread exit, one registered
+/// before and one after the body's call (so that, whatever order the platform destroys thread-locals in, one of them runs after
+/// the thread-locals the callee may have created were destroyed). `f` must catch its own panics (use `guard`).
+/// Returns [body, destructor registered first, destructor registered last]; None if the thread could not be created.
+pub fn at_thread_exit<R: Send + 'static>(f: std::sync::Arc<dyn Fn() -> R + Send + Sync>) -> Option<Vec<R>> {
+    use std::sync::{Arc, Mutex};
+    let slot: Arc<Mutex<Vec<(u8, R)>>> = Arc::new(Mutex::new(Vec::new()));
+    let s2 = slot.clone();
+    let h = std::thread::Builder::new()
+        .spawn(move || {
+            let (fa, sa) = (f.clone(), s2.clone());
+            EXIT_EARLY.with(|a| {
+                *a.0.borrow_mut() = Some(Box::new(move || {
+                    let r = fa();
+                    if let Ok(mut g) = sa.lock() {
+                        g.push((1, r));
+                    }
+                }))
+            });
+            let r = f();
+            if let Ok(mut g) = s2.lock() {
+                g.push((0, r));
+            }
+            let (fb, sb) = (f.clone(), s2.clone());
+            EXIT_LATE.with(|a| {
+                *a.0.borrow_mut() = Some(Box::new(move || {
+                    let r = fb();
+                    if let Ok(mut g) = sb.lock() {
+                        g.push((2, r));
+                    }
+                }))
+            });
+        })
+        .ok()?;
+    h.join().ok()?;
+    let mut v = std::mem::take(&mut *slot.lock().ok()?);
+    v.sort_by_key(|x| x.0);
+    if v.len() != 3 {
+        return None;
+    }
+    Some(v.into_iter().map(|x| x.1).collect())
+}
+
+pub const CONTEXT_NAMES: [&str; 4] = [
+    "from a destructor while the calling thread unwinds",
+    "on a fresh thread",
+    "from a thread-local destructor at thread exit (registered before the thread's own calls)",
+    "from a thread-local destructor at thread exit (registered after the thread's own calls)",
+];
+
+/// `f` renders the result of some codec calls (panics caught and rendered by `f` itself). Returns the first context in which the
+/// rendering differs from `want`, with what it was there; Ok(true) if all four contexts were run, Ok(false) if no thread could be had.
+pub fn same_in_contexts(want: &str, f: std::sync::Arc<dyn Fn() -> String + Send + Sync>) -> Result<bool, (&'static str, String)> {
+    let r = match while_unwinding(|| f()) {
+        Caught::Ok(s) => s,
+        _ => "panic".to_string(),
+    };
+    if r != want {
+        return Err((CONTEXT_NAMES[0], r));
+    }
+    match at_thread_exit(f) {
+        Some(rs) => {
+            for (k, r) in rs.into_iter().enumerate() {
+                if r != want {
+                    return Err((CONTEXT_NAMES[1 + k], r));
+                }
+            }
+            Ok(true)
+        }
+        None => Ok(false),
+    }
+}
